@@ -97,6 +97,33 @@ def swapV2 (p : PoolD) (ticks : TickMap) (arrays : List Int) (amount threshold l
           else .ok { userIn := incIn.1, userOut := (excludedAmount feeOut swOut).1, poolIn := swIn, poolOut := swOut, post := u }
 
 
+/-- the two-hop handlers: exact-in computes leg one then leg two, exact-out leg two then leg one;
+    the legs' intermediate amounts must match; one threshold on the outer amount -/
+def twoHop (p1 : PoolD) (t1 : TickMap) (af1 : Option AfInfo) (arr1 : List Int)
+    (p2 : PoolD) (t2 : TickMap) (af2 : Option AfInfo) (arr2 : List Int)
+    (amount threshold : Nat) (isInput d1 d2 : Bool) (lim1 lim2 now : Nat) (fIn fMid fOut : Option TFee) (fuel : Nat) :
+    R (XSwapResult × XSwapResult) :=
+  if isInput then
+    match swapV2 p1 t1 arr1 amount 0 lim1 true d1 now af1 fIn fMid fuel with
+    | .error e => .error e
+    | .ok r1 =>
+      match swapV2 p2 t2 arr2 r1.poolOut 0 lim2 true d2 now af2 fMid fOut fuel with
+      | .error e => .error e
+      | .ok r2 =>
+        if r1.poolOut ≠ r2.userIn then .error .IntermediateTokenAmountMismatch
+        else if r2.userOut < threshold then .error .AmountOutBelowMinimum
+        else .ok (r1, r2)
+  else
+    match swapV2 p2 t2 arr2 amount U64_MAX lim2 false d2 now af2 fMid fOut fuel with
+    | .error e => .error e
+    | .ok r2 =>
+      match swapV2 p1 t1 arr1 (excludedAmount fMid r2.userIn).1 U64_MAX lim1 false d1 now af1 fIn fMid fuel with
+      | .error e => .error e
+      | .ok r1 =>
+        if r1.poolOut ≠ r2.userIn then .error .IntermediateTokenAmountMismatch
+        else if r1.userIn > threshold then .error .AmountInAboveMaximum
+        else .ok (r1, r2)
+
 def parseTFee (bps mx : String) : Option (Option TFee) := do
   let b ← bps.toNat?
   let m ← mx.toNat?
@@ -133,6 +160,59 @@ def xswapLine (s : HistState) (t : List String) : Option String :=
       if r.userIn > cap then pure "err Code(1)"             -- the trader's token account holds u64::MAX / 4
       else if r.poolOut > vaultOut then pure "err Code(1)"  -- the token program refuses the vault's transfer
       else pure s!"ok {r.userIn} {r.userOut} {r.poolIn} {r.poolOut}"
+  | _ => none
+
+
+/-- `H xhop ver amount thrMode ein d1 d2 lim1 lim2 swapPools feeIn(3) feeOut(3)`; `cur` = current state,
+    `snap` = the state saved by `H snap` -/
+def xhopLine (cur snap : HistState) (t : List String) : Option String :=
+  match t with
+  | [ver, amount, thrMode, ein, d1, d2, lim1, lim2, sw, bI, mI, _fI, bO, mO, _fO] => do
+    let ver ← ver.toNat?
+    let amount ← amount.toNat?
+    let thrMode ← thrMode.toNat?
+    let b (x : String) : Option Bool := if x == "1" then some true else if x == "0" then some false else none
+    let ein ← b ein; let d1 ← b d1; let d2 ← b d2; let sw ← b sw
+    let lim1 ← lim1.toNat?; let lim2 ← lim2.toNat?
+    let fI ← parseTFee bI mI
+    let fO ← parseTFee bO mO
+    let (fI, fO) := if ver = 2 then (fI, fO) else (none, none)
+    let s1 := if sw then snap else cur
+    let s2 := if sw then cur else snap
+    let now := cur.now
+    if now < s1.pool.rewardTs || now < s2.pool.rewardTs then pure "err SnapshotFromTheFuture" else
+    let arr1 := startTickIndexes s1.pool.tick s1.pool.ts d1
+    let arr2 := startTickIndexes s2.pool.tick s2.pool.ts d2
+    let cap := U64_MAX / 4
+    let run (thr : Nat) := twoHop s1.pool s1.ticks s1.af arr1 s2.pool s2.ticks s2.af arr2 amount thr ein d1 d2 lim1 lim2 now fI none fO SWAP_FUEL
+    -- the harness derives the threshold from the two SINGLE swaps (no intermediate-match requirement)
+    let singles : R (Nat × Nat) :=
+      if ein then
+        match swapV2 s1.pool s1.ticks arr1 amount 0 lim1 true d1 now s1.af fI none SWAP_FUEL with
+        | .error e => .error e
+        | .ok r1 =>
+          match swapV2 s2.pool s2.ticks arr2 r1.userOut 0 lim2 true d2 now s2.af none fO SWAP_FUEL with
+          | .error e => .error e
+          | .ok r2 => .ok (r1.userIn, r2.userOut)
+      else
+        match swapV2 s2.pool s2.ticks arr2 amount U64_MAX lim2 false d2 now s2.af none fO SWAP_FUEL with
+        | .error e => .error e
+        | .ok r2 =>
+          match swapV2 s1.pool s1.ticks arr1 r2.userIn U64_MAX lim1 false d1 now s1.af fI none SWAP_FUEL with
+          | .error e => .error e
+          | .ok r1 => .ok (r1.userIn, r2.userOut)
+    let thr : Nat := match singles, thrMode with
+      | .ok r, 1 => if ein then r.2 else r.1
+      | .ok r, 2 => if ein then min (r.2 + 1) U64_MAX else r.1 - 1
+      | _, _ => if ein then 0 else U64_MAX
+    if arr1.isEmpty || arr2.isEmpty then pure "err InvalidTickArraySequence" else
+    match run thr with
+    | .error e => pure ("err " ++ e.name)
+    | .ok (r1, r2) =>
+      let v1out := min (if d1 then s1.vaultB else s1.vaultA) cap
+      let v2out := min (if d2 then s2.vaultB else s2.vaultA) cap
+      if r1.userIn > cap || r1.poolOut > v1out || r2.poolOut > v2out then pure "err Code(1)"
+      else pure s!"ok {r1.userIn} {r2.userOut}"
   | _ => none
 
 end WP
